@@ -17,6 +17,7 @@ R19.life    a binding whose target returns a view of self's storage without shar
             keeps self alive for the result's lifetime (custodian 0 = result, ward 1 = self)
 R19.buf     no C++ exception can leave a PyBufferProcs callback; memcpy into a fresh array is gated by a size test and
             an element-type test; numBytes() = product(shape) x itemsize; AtomicSize(T) x Width(T) = sizeof(T)
+R19.order2d FixedArray2D: a 1-D sequence walked by a running counter in a two-level nest addresses element (inner, outer)
 R19.str     StringTableT::_table is mutated only by insert inside intern, only when the string is absent
 """
 import re, os
@@ -421,7 +422,44 @@ def rule_str(fx, out):
                         'index %s resolved in %s' % (a0, recv) if recv == want else 'the index %s is looked up in %s, but it was read from an array whose strings live in %s (another table numbers its strings differently)' % (a0, recv or '?', want), e['loc']))
     return n
 
-RULES = [('tmp', rule_tmp), ('acc', rule_acc), ('wguard', rule_wguard), ('wprop', rule_wprop), ('inv', rule_inv), ('tuple', rule_tuple), ('life', rule_life), ('buf', rule_buf), ('str', rule_str)]
+def rule_order2d(fx, out):
+    """FixedArray2D: wherever a 1-D sequence is walked with a running counter inside a two-level loop nest, the 2-D
+    element addressed is (inner variable, outer variable): the linear order is x-fastest (row-major), as in the storage
+    formula _ptr[stride.x*(j*stride.y+i)], in getslice and in the masked forms"""
+    n = 0; seen = set()
+    def incvars(txt): return re.findall(r'(?:\+\+|--)\s*(\w+)|(\w+)\s*(?:\+\+|--)', txt or '')
+    for f in fx.fns:
+        if f.get('cls') != 'FixedArray2D' or f.key in seen: continue
+        loops = [l for l in f['loops'] if 'inc' in l]
+        nests = []
+        for idx, l in enumerate(loops):
+            if l['depth'] == 0:
+                inner = [m for m in loops[idx + 1:] if m['depth'] == 1]
+                nxt0 = [k for k, m in enumerate(loops[idx + 1:]) if m['depth'] == 0]
+                if nxt0: inner = [m for m in loops[idx + 1: idx + 1 + nxt0[0]] if m['depth'] == 1]
+                if inner: nests.append((l, inner[0]))
+        if not nests: continue
+        seen.add(f.key)
+        for outer, inner in nests:
+            ov = [a or b for a, b in incvars(outer['inc'])]; iv = [a or b for a, b in incvars(inner['inc'])]
+            counters = set()
+            for sb in inner.get('subs', []):
+                toks = set(re.findall(r'[A-Za-z_]\w*', sb['index']))
+                if len(toks) == 1 and not (toks & set(ov[:1])) and not (toks & set(iv[:1])): counters |= toks
+            counters &= set(ov + iv) | set(t_ for sb in inner.get('subs', []) for t_ in re.findall(r'([A-Za-z_]\w*)\+\+', sb['index']))
+            if not counters or not ov or not iv: continue
+            o_, i_ = ov[0], iv[0]
+            n += 1
+            bad = None
+            for e in f.events:
+                if e['k'] == 'call' and e['name'].endswith('operator()') and len(e['args']) >= 3:
+                    xs = set(re.findall(r'[A-Za-z_]\w*', e['args'][1])); ys = set(re.findall(r'[A-Za-z_]\w*', e['args'][2]))
+                    if (o_ in xs or i_ in ys) and not (i_ in xs and o_ in ys):
+                        bad = 'element (%s, %s) is addressed while the 1-D sequence is walked with counter %s in a nest with outer variable %s and inner variable %s: the sequence is consumed column-major, transposed with respect to storage, getslice and the masked forms' % (e['args'][1], e['args'][2], sorted(counters)[0], o_, i_)
+            out.append(('R19.order2d', 'order2d:%s@%s' % (sname(f), outer['loc'].rsplit(':', 2)[-2] if False else sname(f) + '/' + o_ + i_), VIOLATED if bad else HOLDS, bad or 'running counter %s: x index from the inner variable %s, y index from the outer variable %s' % (sorted(counters)[0], i_, o_), outer['loc']))
+    return n
+
+RULES = [('order2d', rule_order2d), ('tmp', rule_tmp), ('acc', rule_acc), ('wguard', rule_wguard), ('wprop', rule_wprop), ('inv', rule_inv), ('tuple', rule_tuple), ('life', rule_life), ('buf', rule_buf), ('str', rule_str)]
 
 def emit(rep, out):
     seen = {}
@@ -457,7 +495,7 @@ def main(rep, ws, tier):
     for name, fnc in RULES:
         counts[name] = fnc(fx, out)
     emit(rep, out)
-    floors = {'acc': 2, 'wguard': 40, 'wprop': 15, 'inv': 3, 'tuple': 8, 'life': 3, 'buf': 20, 'str': 5}
+    floors = {'acc': 2, 'wguard': 40, 'wprop': 15, 'inv': 3, 'tuple': 8, 'life': 3, 'buf': 20, 'str': 5, 'order2d': 3}
     for k, v in floors.items():
         rep.floor('R19.%s instances' % k, counts.get(k, 0), v)
     rep.floor('functions analysed for discarded exception objects', counts.get('tmp', 0), 3000)
